@@ -53,49 +53,10 @@ def _eval_bool(e, val):
 
 
 def check_bn_mode(model, R):
-    R.rule('C02.MODE', 'batch_norm_forward and batch_norm_backward select batch statistics under equivalent predicates (truth table over training x running-stats-present)', floor=2)
-    fwd = model.func('synapgrad.cpu_ops.batch_norm_forward')
-    bwd = model.func('synapgrad.cpu_ops.batch_norm_backward')
-    # forward: <stat> = running_<stat> if <test> else x.<stat>(...)
-    ftests = []
-    for n in body_walk(fwd.node):
-        if isinstance(n, ast.Assign) and isinstance(n.value, ast.IfExp) and isinstance(n.value.body, ast.Name) and n.value.body.id.startswith('running_'):
-            ftests.append((n.targets[0].id if isinstance(n.targets[0], ast.Name) else '?', n.value.body.id, n.value.test, n))
-    # backward: if <test>: <batch-statistics formula> else: <running formula>
-    btest = None
-    for n in body_walk(bwd.node):
-        if isinstance(n, ast.If) and n.orelse:
-            has_sum_body = any(isinstance(c, ast.Call) and isinstance(c.func, ast.Attribute) and c.func.attr == 'sum' for s in n.body for c in ast.walk(s))
-            has_sum_else = any(isinstance(c, ast.Call) and isinstance(c.func, ast.Attribute) and c.func.attr == 'sum' for s in n.orelse for c in ast.walk(s))
-            if has_sum_body != has_sum_else:
-                btest = (n.test, has_sum_body)      # polarity: test true -> batch branch iff has_sum_body
-    if len(ftests) != 2 or btest is None:
-        R.incomplete_at('C02.MODE', bwd.qualname, 'could not extract the statistics-selection predicates (forward %d, backward %s)' % (len(ftests), btest is not None))
-        return
-    for stat, runname, test, node in ftests:
-        bad = []
-        for training in (False, True):
-            for present in (False, True):
-                def fval(t, training=training, present=present):
-                    if t == 'training': return training
-                    if t.endswith('is not None'): return present
-                    if t.endswith('is None'): return not present
-                    raise KeyError(t)
-                def bval(t, training=training, present=present):
-                    if t == 'training': return training
-                    if t == 'track_running_stats': return present
-                    raise KeyError(t)
-                try:
-                    f_running = _eval_bool(test, fval)
-                    b = _eval_bool(btest[0], bval)
-                    b_batch = b if btest[1] else not b
-                except KeyError as e:
-                    R.incomplete_at('C02.MODE', bwd.qualname, 'unknown atom %s in a mode predicate' % e)
-                    return
-                if f_running == b_batch:
-                    bad.append((training, present))
-        R.ob('C02.MODE', bwd.qualname, '%s: forward uses running iff [%s]; backward batch-branch iff [%s]' % (stat, norm(test), norm(btest[0])),
-             not bad, 'forward and backward disagree on which statistics are used for (training, running stats present) in %s' % bad, '%s:%d' % (bwd.mod.relpath, bwd.node.lineno))
+    R.rule('C02.MODE', 'batch_norm_backward differentiates with constant statistics exactly when batch_norm_forward normalised with the running buffers '
+                       '(kernels partially evaluated under the 4 valuations of training x stats-present; result terms compared)', floor=2)
+    from sa.rules_bn import check_mode_pair
+    check_mode_pair(model, R)
 
 
 # ---------------------------------------------------------------------------------------- pooling geometry pairing
